@@ -123,7 +123,40 @@ def roundtrip(prop, tier, seed):
     return finish(prop, tier, seed, level(prop), res, RT_RULE[prop], distinct_for(prop, res), ev, assumptions, t0, extra)
 
 
+# ----------------------------------------------------------------------------- generic single-workload checks
+
+GEN = {
+    # prop: dict(workload, extra, quick=(cases, secs), thorough=(cases, secs), both_profiles, rule, distinct, evaluations, assumptions)
+    "C05": dict(workload="simple", extra=["--mode", "c05"], quick=(6000, 60), thorough=(150000, 600), both=True,
+                rule="files written from generated programs (tame coordinates incl. +-0, attribute subsets, invalid-state patterns incl. out-of-set values injected by renaming an extension attribute in the XML, unit-quaternion poses) x ALL 64 option vectors; each simple point is compared with models::simple_point(raw point, descriptor, options); non-trivial = point cloud with >=1 point run under the 64 vectors; distinct = distinct attribute subsets observed",
+                distinct=lambda r: len(r.nums.get("attr_subset", ())), evaluations=lambda r: r.stats.get("option_vectors_run", 0),
+                assumptions=["only unit quaternions; derived spherical coordinates are taken from the un-posed Cartesian value", "points whose coordinates are non-finite are not judged under a pose (inf*0 differs between matrix and quaternion form)", "numeric values of normalised colour/intensity are left to C13; C05 checks presence/absence and un-normalised values exactly"]),
+    "C13": dict(workload="simple", extra=["--mode", "c13"], quick=(60000, 40), thorough=(1500000, 400), both=True,
+                rule="point clouds whose intensity/colour attributes take every data type (single/double open/bounded, integer, scaled integer of widths 0..64, degenerate) x 9 limit classes (absent, complete same type, complete mixed, partial via XML line removal, equal, reversed, extreme, non-finite, complete other type) x sorted value ladders x 4 settings of the two normalisation switches; non-trivial = (type class, limit class, switch) cell in which delivered values were checked; distinct = number of such distinct cells",
+                distinct=lambda r: len([k for k in r.cover if k.startswith("cell:")]), evaluations=lambda r: r.stats.get("clouds", 0),
+                assumptions=["expected value = clamp((v-min)/(max-min)) in f64 with halved operands, tolerance 2 ulp(f32) + 2e-7", "when limits are complete but of mixed/other type either candidate range is accepted; the invariants ([0,1], no NaN, monotone) are always required", "a reader that refuses unusable limits (reversed, non-finite) when the iterator is created is not a C13 matter"]),
+}
+
+
+def generic(prop, tier, seed):
+    t0 = time.time()
+    g = GEN[prop]
+    wd = workdir(prop, tier)
+    res = Result()
+    try:
+        cases, secs = g["quick"] if tier == "quick" else g["thorough"]
+        b = build("checked")
+        res.merge(run_shards(b, g["workload"], g["extra"], cases, secs, seed, tier, wd, "checked", prop, abort_prop=g.get("abort_prop")))
+        if tier == "thorough" and g.get("both"):
+            b2 = build("release")
+            res.merge(run_shards(b2, g["workload"], g["extra"], cases // 2, secs // 2, seed + 1000003, tier, wd, "release", prop, abort_prop=g.get("abort_prop")))
+    finally:
+        cleanup(wd)
+    return finish(prop, tier, seed, level(prop), res, g["rule"], g["distinct"](res), g["evaluations"](res), g["assumptions"], t0, g.get("extra_cov", lambda r: {})(res), exhaustive=g.get("exhaustive"))
+
+
 PLANS = {p: roundtrip for p in RT}
+PLANS.update({p: generic for p in GEN})
 
 
 def run(prop, tier, seed):
